@@ -326,7 +326,7 @@ def run(tier):
     jobs = [("Load:v%d,timecnt=%d,typecnt=%d" % s, job_load, {"version": s[0], "timecnt": s[1], "typecnt": s[2], "queries": False}) for s in shapes]
     if tier == "thorough":
         jobs.append(("Load+queries:v2,timecnt=1,typecnt=1", job_load, {"version": 2, "timecnt": 1, "typecnt": 1, "queries": True}))
-    lean = [(1, 1, 2)] if tier == "quick" else [(1, 1, 2), (1, 2, 2), (2, 1, 2), (2, 2, 2), (1, 2, 3)]
+    lean = [(1, 1, 2)] if tier == "quick" else [(1, 1, 2), (1, 2, 2), (2, 1, 2)]
     jobs += [("Load(lean):v%d,timecnt=%d,typecnt=%d" % s, job_load, {"version": s[0], "timecnt": s[1], "typecnt": s[2], "charcnt_max": 1, "lean": True, "queries": False}) for s in lean]
     ft = [(1, 2, 2)] if tier == "quick" else [(1, 2, 2), (2, 2, 2)]
     jobs += [("Load(lean,fixed times):v%d,timecnt=%d,typecnt=%d" % s_, job_load, {"version": s_[0], "timecnt": s_[1], "typecnt": s_[2], "charcnt_max": 1, "lean": True, "queries": False, "fixed_times": True}) for s_ in ft]
@@ -337,7 +337,7 @@ def run(tier):
     from . import c16
     FL = 12 if tier == "quick" else 16
     jobs += [("footer:ParsePosixSpec unit H%d,L=%d%s" % (hh, FL, "" if zz is None else ",zone=%d" % zz), c16.job_unit, {"H": hh, "L": FL, "zone": zz}) for hh, zz in ((1, None), (2, None), (3, 0), (3, 1), (4, None), (5, None))]
-    results = common.run_jobs(jobs)
+    results = common.run_jobs(jobs, job_timeout=(None if tier == "quick" else 7000))
     rep.add_jobs(results)
     rep.add_module("wrap/posix.cc", c16.module())
     known = common.load_known()
